@@ -900,20 +900,182 @@ pub fn run_t(seed: u64, l: &mut Local) {
     }
 }
 
+// ---------------------------------------------------------------------------
+// Part D: two or three daemons claim the same names on one loss-free link
+
+pub struct MadeD {
+    pub world: World,
+    pub desc: String,
+    pub ports: Vec<u16>,
+    pub horizon: u64,
+}
+
+const D_INST: &str = "shared";
+const D_HOST: &str = "shared-host.local.";
+
+pub fn scenario_d(seed: u64, offsets: &[u64], jitters: &[u64], swap: bool, dual: bool) -> MadeD {
+    let mut w = World::new(seed);
+    w.set_stepping(Stepping::Lazy);
+    let n = offsets.len();
+    let mut hosts = Vec::new();
+    for k in 0..n {
+        let mut addrs: Vec<(String, u8)> = vec![(format!("10.0.0.{}", 5 + k), 24)];
+        if dual {
+            addrs.push((format!("fe80::{}", 5 + k), 64));
+        }
+        let refs: Vec<(&str, u8)> = addrs.iter().map(|(a, p)| (a.as_str(), *p)).collect();
+        let j = jitters[k];
+        let h = w.add_host_with(vec![IfSpec::new("eth0", 2, 0, &refs)], |g| g.jitter = std::iter::repeat(j).take(6).collect());
+        w.set_ip_check_interval(h, 3600);
+        let _ = w.monitor(h);
+        hosts.push(h);
+    }
+    let t0 = w.now();
+    // different data: ports (decides the instance name) and addresses (decide the host name); `swap` makes the two orders disagree
+    let ports: Vec<u16> = (0..n).map(|k| if swap { 90 - k as u16 } else { 80 + k as u16 }).collect();
+    let mut order: Vec<usize> = (0..n).collect();
+    order.sort_by_key(|k| offsets[*k]);
+    for k in order {
+        w.run_until(t0 + offsets[k]);
+        let mut addrs: Vec<IpAddr> = vec![format!("10.0.0.{}", 5 + k).parse().unwrap()];
+        if dual {
+            addrs.push(format!("fe80::{}", 5 + k).parse().unwrap());
+        }
+        let reg = World::reg_info("_t._udp.local.", D_INST, D_HOST, &addrs, ports[k], &[("k", Some(b"v"))]);
+        w.register(hosts[k], reg);
+    }
+    let last = offsets.iter().max().copied().unwrap_or(0);
+    let horizon = t0 + last + 10_000;
+    w.run_until(horizon);
+    let desc = format!("{n} daemons, offsets {offsets:?} ms, jitters {jitters:?}, ports {ports:?}, dual-stack {dual}");
+    MadeD { world: w, desc, ports, horizon }
+}
+
+pub fn monitor_d(made: &MadeD, l: &mut Local) {
+    let trace = &made.world.trace;
+    let ty = scen::wire_name("_t._udp.local.");
+    let inst0 = scen::wire_name(&format!("{D_INST}._t._udp.local."));
+    let host0 = scen::wire_name(D_HOST);
+    let n = made.ports.len();
+    let mut finals: Vec<Option<(Name, Name)>> = Vec::new();
+    for k in 0..n {
+        let txs = scen::tx_msgs(trace, k);
+        finals.push(txs.iter().filter_map(|tx| names_announced(tx, &ty, made.ports[k])).last());
+    }
+    let shape = {
+        let mut o: Vec<u64> = made.desc.split("offsets [").nth(1).unwrap_or("").split(']').next().unwrap_or("").split(", ").filter_map(|x| x.parse().ok()).collect();
+        o.sort();
+        let gap = o.last().copied().unwrap_or(0) - o.first().copied().unwrap_or(0);
+        if gap == 0 { "simultaneous" } else if gap < 750 { "overlapping-probes" } else if gap < 1800 { "during-announcement" } else { "after-announcement" }
+    };
+    let wit = || {
+        let mut per_host = Vec::new();
+        for k in 0..n {
+            let lines: Vec<String> = trace.entries.iter().filter(|e| e.host == k && matches!(e.ev, Ev::Tx(_) | Ev::Obs { .. } | Ev::Api { .. })).map(render_entry).filter(|s| !s.contains(" tx v6 ")).map(|s| util::prefix(&s, 260).to_string()).take(45).collect();
+            per_host.push(json!({"host": k, "final": finals[k].as_ref().map(|(i, h)| format!("{} on {}", wire::escaped(i), wire::escaped(h))), "log": lines}));
+        }
+        json!({"scenario": made.desc, "hosts": per_host})
+    };
+    l.act("N6");
+    if let Some(k) = finals.iter().position(|f| f.is_none()) {
+        l.violate(Violation::new("N6", format!("N6/a-daemon-never-announced/{n}-daemons/{shape}"), format!("daemon {k} had not announced its service 10 s after the last registration")).with(wit()));
+        return;
+    }
+    let fin: Vec<(Name, Name)> = finals.iter().map(|f| f.clone().unwrap()).collect();
+    for (what, orig, pick) in [("instance", &inst0, 0usize), ("host", &host0, 1usize)] {
+        let names: Vec<&Name> = fin.iter().map(|f| if pick == 0 { &f.0 } else { &f.1 }).collect();
+        let holders = names.iter().filter(|x| wire::names_eq_nocase(x, orig)).count();
+        if holders != 1 {
+            l.violate(
+                Violation::new("N6", format!("N6/{}-hold-the-original-{what}-name/{n}-daemons/{shape}", if holders == 0 { "none" } else { "several" }), format!("{holders} daemons end up announcing the original {what} name {}", wire::escaped(orig)))
+                    .with(wit()),
+            );
+            return;
+        }
+        for a in 0..n {
+            for b in a + 1..n {
+                if wire::names_eq_nocase(names[a], names[b]) {
+                    l.violate(
+                        Violation::new("N6", format!("N6/two-daemons-share-a-renamed-{what}-name/{n}-daemons/{shape}"), format!("daemons {a} and {b} both end up announcing {}", wire::escaped(names[a])))
+                            .with(wit()),
+                    );
+                    return;
+                }
+            }
+        }
+    }
+}
+
+pub fn d_case(i: u64, thorough: bool, seed: u64) -> (Vec<u64>, Vec<u64>, bool, bool) {
+    let mut rng = Rng::new(util::mix(seed, 0xD0 + i));
+    // the dense grid: every millisecond around the probe steps, 25 ms elsewhere up to 3 s
+    let mut grid: Vec<u64> = Vec::new();
+    for c in [0u64, 250, 500, 750, 1000] {
+        for d in 0..=8 {
+            grid.push(c + d);
+            if c >= d {
+                grid.push(c - d);
+            }
+        }
+    }
+    let mut g = 0;
+    while g <= 3000 {
+        grid.push(g);
+        g += 25;
+    }
+    grid.push(4000);
+    grid.push(6000);
+    grid.sort();
+    grid.dedup();
+    let jit = [0u64, 1, 100, 125, 249];
+    let three = rng.chance(1, 4);
+    let off = if thorough { grid[(i as usize) % grid.len()] } else { *rng.pick(&grid) };
+    let mut offsets = vec![0, off];
+    if three {
+        offsets.push(*rng.pick(&grid));
+    }
+    if rng.chance(1, 2) {
+        offsets.reverse();
+    }
+    let jitters: Vec<u64> = offsets.iter().map(|_| *rng.pick(&jit)).collect();
+    (offsets, jitters, rng.chance(1, 2), rng.chance(1, 4))
+}
+
+pub fn run_d(i: u64, thorough: bool, seed: u64, l: &mut Local) {
+    let (offsets, jitters, swap, dual) = d_case(i, thorough, seed);
+    let made = scenario_d(util::mix(seed, i), &offsets, &jitters, swap, dual);
+    l.evaluations += 1;
+    l.count("daemon_iterations", made.world.total_iterations);
+    if made.world.trace.deaths().any(|d| matches!(d.ev, Ev::Death { panicked: true, .. })) {
+        l.inconclusive.push(format!("daemon died in a C08 two-daemon scenario ({})", made.desc));
+        return;
+    }
+    l.distinct.insert(util::fnv_str(&format!("D|{offsets:?}|{jitters:?}|{swap}|{dual}")));
+    monitor_d(&made, l);
+}
+
 pub fn run(report: &Report, tier: &Tier) {
     report.set_rule(
         "part R: one daemon (1..2 interfaces, v4/v6), a service with instance names {plain, upper case, existing ' (N)' up to 2^32-1, inner '(N)', dots, \
          57..63-byte labels, non-ASCII} and host names {plain, upper case, '-N' up to 2^32-1, inner hyphens, 60..63-byte labels}; a conflicting SRV / TXT / A / \
-         AAAA / SRV+A response injected at every millisecond of the probing period (and on the probe instants), in one run of four the new name contested \
-         again; then 12..21 questions (PTR, SRV, TXT, ANY, A, meta) for the old and the new names, then unregister or shutdown; distinct by (names, conflict kind)",
+         AAAA / SRV+A response (one in six spelt in the other letter case) injected at every millisecond of the probing period and on the probe instants, in \
+         one run of four the new name contested again; then 12..21 questions (PTR, SRV, TXT, ANY, A, meta) for the old and the new names, then unregister \
+         or shutdown. part T: pairs of record sets (port, TXT bytes, one or two IPv4 addresses, an IPv6 address) for the instance or host name, each side \
+         shown the other's probe after its first, second or third probe, authority sorted / reversed / in other letter case. part D: two or three \
+         daemons on one loss-free link registering the same instance and host name with different ports and addresses at offsets from a grid (every \
+         ms within 8 ms of 0/250/500/750/1000, every 25 ms to 3 s, 4 s, 6 s) x jitters {0,1,100,125,249}; distinct by (names, conflict kind) / record-set pair / (offsets, jitters)",
     );
-    for r in ["N1", "N1-renamed", "N1-event", "N1-probed", "N4-answers", "N5", "N2", "N3", "N3b"] {
+    for r in ["N1", "N1-renamed", "N1-event", "N1-probed", "N4-answers", "N5", "N2", "N3", "N3b", "N6"] {
         report.floor(r, 30);
     }
+    report.assume("a counter already at 2^32-1 may count on or start a fresh suffix; a conflict delivered after the third probe is 250 ms old is not 'while probing' and is not judged (DESIGN §12)");
     let seed = report.seed;
-    let n: u64 = if tier.thorough { 100_000 } else { 4_000 };
-    run_parallel(report, n, threads(), tier.budget_s, |i, l| match i % 2 {
-        0 => run_r(util::mix(seed, 0xC08_0000 + i), l),
-        _ => run_t(util::mix(seed, 0xC08_0000 + i), l),
+    let n: u64 = if tier.thorough { 150_000 } else { 6_000 };
+    let thorough = tier.thorough;
+    // (runs with two or three daemon threads are an order of magnitude dearer: one in ten)
+    run_parallel(report, n, threads(), tier.budget_s, |i, l| match i % 10 {
+        0..=3 => run_r(util::mix(seed, 0xC08_0000 + i), l),
+        4..=8 => run_t(util::mix(seed, 0xC08_0000 + i), l),
+        _ => run_d(i / 10, thorough, seed, l),
     });
 }
